@@ -1331,7 +1331,15 @@ def _int_binop(ex, op, a, b):
         return r
     if t is ast.RShift:
         if cb is None:
-            raise Unsupported('shift by symbolic amount')
+            # symbolic amount: exact for 0 <= amount < 64 (case distinction over divisions by constants)
+            if not ex.branch(mk_bool(y >= 0)):
+                ex.raise_(ValueError, 'negative shift count')
+            if not ex.branch(mk_bool(y < 64)):
+                raise Unsupported('right shift by a symbolic amount that may be >= 64')
+            r = x / (1 << 63)
+            for k in range(62, -1, -1):
+                r = z3.If(y == k, x / (1 << k), r)
+            return mk_int(r)
         if cb < 0:
             ex.raise_(ValueError, 'negative shift count')
         return mk_int(x / (1 << cb))
